@@ -182,6 +182,9 @@ def case_wrapper(case):
     tr = 0.0 if trend is None else trend(pos)
     stored = (norm.denormalize(raw) if norm is not None else raw) + tr  # what a user's field looks like
     src, dst = case["src"], case["dst"]
+    if src != "field":  # an unrelated field under the default name must survive
+        fld(pos, field=stored[::-1].copy() * 0.5, post_process=False, store="field")
+        unrelated = np.array(fld["field"]).copy()
     fld(pos, field=stored.copy(), post_process=False, store=src)
     before = np.array(fld[src]).copy()
     kw = dict(case.get("kw", {}))
@@ -225,6 +228,8 @@ def case_wrapper(case):
     target = src if dst is True else dst
     if dst is not False:
         r.close("result stored under the requested name", np.asarray(fld[target]), out, rtol=0, atol=0, **extra)
+    if src != "field":
+        r.close("unrelated field stored under the default name is untouched", np.asarray(fld["field"]), unrelated, rtol=0, atol=0, **extra)
     if dst is not True:
         r.close("source field kept when storing under another name", np.asarray(fld[src]), before, rtol=0, atol=0, **extra)
     # the distribution through the wrapper (normal field with mean, no trend / normalizer)
@@ -261,7 +266,7 @@ def run(chk):
     chk.run("discrete", case_discrete, dc, rule="discrete transform with 2-5 classes x thresholds {arithmetic, equal, explicit (incl. integers)} x (mu, sigma^2): inputs are the probability grid plus every threshold, its two floating-point neighbours and +-1e-9: output set and partition at the thresholds, equal-probability classes")
     wc = []
     methods = [("normal_to_lognormal", {}), ("normal_to_uniform", {"low": -2.0, "high": 6.0}), ("normal_to_uniform", {}), ("normal_to_arcsin", {}), ("normal_to_arcsin", {"a": -1.0, "b": 4.0}), ("normal_to_uquad", {}), ("zinnharvey", {"conn": "low"}), ("zinnharvey", {}), ("normal_force_moments", {}), ("boxcox", {"lmbda": 0.5, "shift": 3.0}), ("binary", {}), ("binary", {"divide": 0}), ("binary", {"divide": 0.0, "upper": 0, "lower": -1}), ("binary", {"divide": 1.3, "upper": 5.0, "lower": 0.0}), ("normal_to_uquad", {"a": -4.0}), ("normal_to_uquad", {"b": 7.5}), ("normal_to_arcsin", {"a": -4.0}), ("normal_to_arcsin", {"b": 7.5}), ("normal_to_uniform", {"low": 0, "high": 3}), ("discrete", {"values": [0.0, 1.0, 2.0]}), ("discrete", {"values": [2.0, -1.0, 0.5], "thresholds": [0.2, 1.4]}), ("discrete", {"values": [0.0, 1.0, 0.0], "thresholds": "equal"}), ("discrete", {"values": [3.0, 1.0, 2.0], "thresholds": "equal"}), ("discrete", {"values": [0.0, 1.0, 2.0], "thresholds": "equal"})]
-    for (method, kw), (mu, var), process, keep_mean, (src, dst), tk, nk in itertools.product(methods, MOMENTS[1:] if tier == "quick" else MOMENTS, (False, True), (True, False), (("field", True), ("field", "out"), ("f2", "out"), ("field", False)), ("none", "call"), ("none", "yj")):
+    for (method, kw), (mu, var), process, keep_mean, (src, dst), tk, nk in itertools.product(methods, MOMENTS[1:] if tier == "quick" else MOMENTS, (False, True), (True, False), (("field", True), ("field", "out"), ("f2", "out"), ("f2", True), ("field", False)), ("none", "call"), ("none", "yj")):
         if not process and not keep_mean and method in ("normal_to_lognormal", "boxcox"):
             pass
         if method == "boxcox" and mu < 0:
